@@ -23,7 +23,7 @@ for pid in ALL:
              engine="symx",
              level_claimed=dict(category="model_checking",
                                 text=M.get("level_text") or ("Bounded symbolic checking of the real code: " + M["technique"] + ". Bounds: " + json.dumps(M["bounds"])),
-                                design_ref="DESIGN.md section 4, " + pid),
+                                design_ref="DESIGN.md section 8.3 (as built) and section 4, " + pid),
              level_note="Assumes: " + "; ".join(M.get("assumptions", [])) + ". Stubs: " + "; ".join(M.get("stubs", [])) + ". Outside the claim: " + "; ".join(M.get("outside", [])),
              technique=M["technique"])
     checks.append(c)
